@@ -18,6 +18,7 @@ package main
 // generated for every key type (c16DupLists).
 
 import (
+	"math/big"
 	"context"
 	"encoding/json"
 	"fmt"
@@ -974,6 +975,24 @@ func c16Replies[K any](kt c16Key[K], r *hx.Rand, vals []*Val, extra []*Val) []c1
 		es = all()
 		es[r.Intn(len(es))].Tag = -1
 		out = append(out, c16Reply{Kind: "garbage-value", Fields: []string{"results", "statuses"}, Entries: [][]c16Entry{all(), es}})
+		// integer keys: a never-requested key whose text is a requested key plus / minus a multiple of 2^32 (2^64): it is not in the
+		// key's range, so it denotes no key at all (and certainly not the requested one it would wrap to)
+		width := ""
+		switch {
+		case kt.t.Primitive == "int32", kt.t.Reference != nil && schema.Types[kt.t.Reference.Name] != nil && schema.Types[kt.t.Reference.Name].Kind == "typeref" && schema.Types[kt.t.Reference.Name].Prim == "int32":
+			width = "4294967296"
+		case kt.t.Primitive == "int64", kt.t.Reference != nil && schema.Types[kt.t.Reference.Name] != nil && schema.Types[kt.t.Reference.Name].Kind == "typeref" && schema.Types[kt.t.Reference.Name].Prim == "int64":
+			width = "18446744073709551616"
+		}
+		if width != "" {
+			v := vals[r.Intn(len(vals))]
+			w, _ := new(big.Int).SetString(width, 10)
+			for _, sign := range []int64{1, -1} {
+				z := new(big.Int).Add(big.NewInt(v.Z), new(big.Int).Mul(w, big.NewInt(sign)))
+				es = append(all(), c16Entry{Raw: z.String(), Tag: 998})
+				out = append(out, c16Reply{Kind: "out-of-range-key", Fields: []string{"results"}, Entries: [][]c16Entry{es}})
+			}
+		}
 		if kt.kind == 1 {
 			// the same key twice with different params: the later entry replaces the earlier (outside the property's replies)
 			v := vals[r.Intn(len(vals))]
